@@ -25,7 +25,7 @@ COMPONENTS = {
 }
 ASSUMPTIONS = ['an interrupted write_bytes leaves the entry missing, empty or a proper prefix (process-kill model)',
                'both branches see the same urandom stream and clock for the command, so any difference is the cache\'s']
-PROBES = ['pair', 'pair_cold_cache', 'cache_hit_possible', 'torn_prefix', 'torn_empty', 'torn_removed', 'torn_entry_old', 'shared_cache', 'second_repository', 'second_repository_other_kind', 'stale_entries', 'delete', 'clean']
+PROBES = ['pair', 'pair_cold_cache', 'pair_second_client_twice', 'cache_hit_possible', 'torn_prefix', 'torn_empty', 'torn_removed', 'torn_entry_old', 'shared_cache', 'second_repository', 'second_repository_other_kind', 'stale_entries', 'delete', 'clean']
 TIERS = {'quick': {'budget_s': 60, 'batch': 4}, 'thorough': {'budget_s': 900, 'batch': 8}}
 
 
@@ -45,7 +45,8 @@ def gen_case(seed, tier):
             nsnap += 1
         if nsnap and rng.random() < 0.25:
             out.append({'op': 'pair', 'ua': rng.randrange(len(case['users'])), 'ub': rng.randrange(len(case['users'])),
-                        'kb': rng.choice(['restore', 'ls', 'lf']), 'cold': rng.random() < 0.7})
+                        'kb': rng.choice(['restore', 'ls', 'lf']), 'cold': rng.random() < 0.7,
+                        'b_twice': substream(seed, f'c18-twice{len(out)}').random() < 0.5})
     case['ops'] = out
     return case
 
@@ -159,6 +160,14 @@ def run_pair(H, op, i, cache_dirs, mode):
         client = H.clients[u]
 
         async def run_one():
+            out = None
+            # client B may issue its command twice in a row (the second time it finds what the first one cached)
+            # while client A is still busy with its first
+            for rep in range(2 if who == 'b' and op.get('b_twice') else 1):
+                out = await once()
+            return out
+
+        async def once():
             backend = (_store.AsyncSimStore if W.flavour == 'async' else _store.SimStore)(W.state, W.profile())
             repo = R.Repository(backend, concurrent=client.concurrent, quiet=True, cache_directory=shared)
             await repo.unlock(password=client.password, key=client.key)
@@ -184,6 +193,8 @@ def run_pair(H, op, i, cache_dirs, mode):
     W.sim_s += r.stats['sim_s']
     W.digests.append(r.digest)
     H.probe('pair')
+    if op.get('b_twice'):
+        H.probe('pair_second_client_twice')
     if not r.ok:
         H.flag('cache-changes-result', f'two clients on one cache directory: process did not finish: {r.outcome()} {r.exc or r.hang!r}', diff='hang', op='pair', mode=mode)
     else:
@@ -220,12 +231,14 @@ HOT = frozenset({'_get_cached', '_store_cached', '_delete_cached', '_download_sn
 
 def run_case(case):
     from sim.install import CTX
-    saved = CTX.hot_names
-    CTX.hot_names = HOT       # the cache code is where this property lives: pre-empt there far more often
+    saved = CTX.hot_names, CTX.hot_substr, CTX.hot_hold_p
+    CTX.hot_names = HOT       # the cache code is where this property lives: pre-empt there far more often,
+    CTX.hot_substr = ('cached',)   # (any function with "cached" in its name)
+    CTX.hot_hold_p = 0.03     # and hold a task there until other tasks are in that code too
     try:
         return _run_case(case)
     finally:
-        CTX.hot_names = saved
+        CTX.hot_names, CTX.hot_substr, CTX.hot_hold_p = saved
 
 
 def _run_case(case):
